@@ -181,6 +181,29 @@ def end_to_end(v):
             v.violation('a rekey with selectors other than those of the replaced SA is accepted', {}, signature={'component': 'e2e:rekey_ts'})
     finally:
         w.close()
+    # (3b) an authentic requester with ILL-FORMED selectors (Selectors.tla IllFormed: reversed port range - 65535-0 is the wire form of OPAQUE -, reversed
+    #      address range) against a policy restricted to one port / one network: refused, nothing installed - never "any port" or a wide network
+    for name, edit in (('ports 65535-0', dict(sport=65535, eport=0)), ('ports 81-80', dict(sport=81, eport=80)),
+                       ('addresses reversed', dict(saddr=bytes([192, 168, 0, 255]), eaddr=bytes([9, 0, 0, 0])))):
+        for which in (W.TSR, W.TSI):
+            w = wd.World(seed=common.SEED, opts_by_ep={'A': {'peer_port': 80}, 'B': {'my_port': 80}})
+            try:
+                w.establish('A', dport=80)
+                a, b = w.sas('A')[0], w.sas('B')[0]
+                m = W.dec_message(bytes(w.acquire('A', sport=0, dport=80)), probes.keys_of(a.my_crypto))
+                inner = [dict(p, ts=[dict(p['ts'][0], **edit)]) if p['t'] == which else p for p in m['inner']]
+                before = dict(w.kernel['B'].sad)
+                res = w.dispatch('B', probes.seal(a, 36, False, m['mid'], inner), 'A')
+                mm = W.dec_message(bytes(res), probes.keys_of(b.my_crypto)) if res is not None else {'inner': []}
+                n += 1
+                new = [r['sel'] for k, r in w.kernel['B'].sad.items() if k not in before]
+                if new or 'TS_UNACCEPTABLE' not in [W.notify_name(p['ntype']) for p in mm['inner'] if p['t'] == W.NOTIFY]:
+                    v.violation(f'a request whose {"TSr" if which == W.TSR else "TSi"} has {name} is not refused with TS_UNACCEPTABLE' + (f': installed {new[0]}' if new else ''),
+                                {'installed': new}, signature={'component': 'e2e:illformed', 'case': name})
+            except wd.Escape as ex:
+                v.violation(f'ill-formed selector ({name}): {ex}', {}, signature={'component': 'e2e:escape'})
+            finally:
+                w.close()
     for name in ('widen tsr', 'widen tsi', 'drop transport mode', 'add transport mode'):
         for stage in ('auth', 'child'):
             mode = 'tunnel' if name == 'add transport mode' else 'transport'
